@@ -108,7 +108,8 @@ class Ctx:
             print("note: known finding %s no longer reproduces (property=%s); move it to 'fixed' in known_findings.json"
                   % (k, self.pid))
         for key, lst in viol:
-            safe = re.sub(r"[^A-Za-z0-9_.=-]+", "_", key)[:120]
+            import hashlib
+            safe = re.sub(r"[^A-Za-z0-9_.=-]+", "_", key)[:100] + "-" + hashlib.sha1(key.encode()).hexdigest()[:6]
             path = os.path.join(vdir, "%s-%s.json" % (self.pid, safe))
             with open(path, "w") as fh:
                 json.dump({"property": self.pid, "rule": lst[0]["rule"], "rule_text": self.rules.get(lst[0]["rule"], ""),
